@@ -1064,9 +1064,10 @@ func (s *sharedEntryAttributes) ImportConfig(ctx context.Context, t importer.Imp
 			var exists bool
 			var actualEntry Entry = s
 			var keyChild Entry
-			for _, keySchema := range s.schema.GetContainer().GetKeys() {
-
-				keyElemName := keySchema.Name
+			// the key levels in the tree are sorted by key name, as they are when added via AddCacheUpdateRecursive()
+			keyNames := s.GetSchemaKeys()
+			sort.Strings(keyNames)
+			for _, keyElemName := range keyNames {
 
 				keyTransf := t.GetElement(keyElemName)
 				if keyTransf == nil {
@@ -1430,8 +1431,13 @@ func (s *sharedEntryAttributes) getKeyName() (string, error) {
 	// only Contaieners have keys, so check for that
 	switch sch := ancestorWithSchema.GetSchema().GetSchema().(type) {
 	case *sdcpb.SchemaElem_Container:
-		// return the name of the levelUp-1 key
-		return sch.Container.GetKeys()[levelUp-1].Name, nil
+		// return the name of the levelUp-1 key. The key levels in the tree are sorted by key name.
+		keyNames := ancestorWithSchema.GetSchemaKeys()
+		sort.Strings(keyNames)
+		if levelUp > len(keyNames) {
+			return "", fmt.Errorf("error %s is %d levels below a list with %d keys", strings.Join(s.Path(), " "), levelUp, len(sch.Container.GetKeys()))
+		}
+		return keyNames[levelUp-1], nil
 	}
 
 	// we probably called the function on a LeafList or LeafEntry which is not a valid call to be made.
